@@ -55,8 +55,8 @@ pub assume_specification [usize::from_str_radix] (s: &str, radix: u32) -> (r: Re
 //@dropunused
     requires n.is_ascii(), n@.len() >= 1, text_is_number(n@, 10),   // the token's regular expression
     ensures
-        r is Ok <==> 0 <= text_value(n@, 10) <= 0xFFFF,      //# C14 number.accepted_iff_in_the_range_of_its_operand_type
-        r is Ok ==> r->Ok_0 as int == text_value(n@, 10),       //# C14 number.accepted_with_its_value
+        r is Ok <==> 0 <= text_value(n@, 10) <= 0xFFFF,      //# C14,C11 number.accepted_iff_in_the_range_of_its_operand_type
+        r is Ok ==> r->Ok_0 as int == text_value(n@, 10),       //# C14,C11 number.accepted_with_its_value
 //@end
 
 //@action src/lib/preprocessor/preprocessor.rs u_word_num = r#"0(x|X)[0-9A-Fa-f]+"# as nm_pp_u_word_num_hex
@@ -65,8 +65,8 @@ pub assume_specification [usize::from_str_radix] (s: &str, radix: u32) -> (r: Re
 //@dropunused
     requires n.is_ascii(), n@.len() >= 3, text_is_number(n@.subrange(2, n@.len() as int), 16),   // the token's regular expression
     ensures
-        r is Ok <==> 0 <= text_value(n@.subrange(2, n@.len() as int), 16) <= 0xFFFF,      //# C14 number.accepted_iff_in_the_range_of_its_operand_type
-        r is Ok ==> r->Ok_0 as int == text_value(n@.subrange(2, n@.len() as int), 16),       //# C14 number.accepted_with_its_value
+        r is Ok <==> 0 <= text_value(n@.subrange(2, n@.len() as int), 16) <= 0xFFFF,      //# C14,C11 number.accepted_iff_in_the_range_of_its_operand_type
+        r is Ok ==> r->Ok_0 as int == text_value(n@.subrange(2, n@.len() as int), 16),       //# C14,C11 number.accepted_with_its_value
 //@end
 
 //@action src/lib/preprocessor/preprocessor.rs u_word_num = r#"0(b|B)[0-1]+"# as nm_pp_u_word_num_bin
@@ -75,8 +75,8 @@ pub assume_specification [usize::from_str_radix] (s: &str, radix: u32) -> (r: Re
 //@dropunused
     requires n.is_ascii(), n@.len() >= 3, text_is_number(n@.subrange(2, n@.len() as int), 2),   // the token's regular expression
     ensures
-        r is Ok <==> 0 <= text_value(n@.subrange(2, n@.len() as int), 2) <= 0xFFFF,      //# C14 number.accepted_iff_in_the_range_of_its_operand_type
-        r is Ok ==> r->Ok_0 as int == text_value(n@.subrange(2, n@.len() as int), 2),       //# C14 number.accepted_with_its_value
+        r is Ok <==> 0 <= text_value(n@.subrange(2, n@.len() as int), 2) <= 0xFFFF,      //# C14,C11 number.accepted_iff_in_the_range_of_its_operand_type
+        r is Ok ==> r->Ok_0 as int == text_value(n@.subrange(2, n@.len() as int), 2),       //# C14,C11 number.accepted_with_its_value
 //@end
 
 //@action src/lib/preprocessor/preprocessor.rs u_byte_num = r#"[0-9]+"# as nm_pp_u_byte_num_dec
@@ -85,8 +85,8 @@ pub assume_specification [usize::from_str_radix] (s: &str, radix: u32) -> (r: Re
 //@dropunused
     requires n.is_ascii(), n@.len() >= 1, text_is_number(n@, 10),   // the token's regular expression
     ensures
-        r is Ok <==> 0 <= text_value(n@, 10) <= 0xFF,      //# C14 number.accepted_iff_in_the_range_of_its_operand_type
-        r is Ok ==> r->Ok_0 as int == text_value(n@, 10),       //# C14 number.accepted_with_its_value
+        r is Ok <==> 0 <= text_value(n@, 10) <= 0xFF,      //# C14,C11 number.accepted_iff_in_the_range_of_its_operand_type
+        r is Ok ==> r->Ok_0 as int == text_value(n@, 10),       //# C14,C11 number.accepted_with_its_value
 //@end
 
 //@action src/lib/preprocessor/preprocessor.rs u_byte_num = r#"0(x|X)[0-9A-Fa-f]+"# as nm_pp_u_byte_num_hex
@@ -95,8 +95,8 @@ pub assume_specification [usize::from_str_radix] (s: &str, radix: u32) -> (r: Re
 //@dropunused
     requires n.is_ascii(), n@.len() >= 3, text_is_number(n@.subrange(2, n@.len() as int), 16),   // the token's regular expression
     ensures
-        r is Ok <==> 0 <= text_value(n@.subrange(2, n@.len() as int), 16) <= 0xFF,      //# C14 number.accepted_iff_in_the_range_of_its_operand_type
-        r is Ok ==> r->Ok_0 as int == text_value(n@.subrange(2, n@.len() as int), 16),       //# C14 number.accepted_with_its_value
+        r is Ok <==> 0 <= text_value(n@.subrange(2, n@.len() as int), 16) <= 0xFF,      //# C14,C11 number.accepted_iff_in_the_range_of_its_operand_type
+        r is Ok ==> r->Ok_0 as int == text_value(n@.subrange(2, n@.len() as int), 16),       //# C14,C11 number.accepted_with_its_value
 //@end
 
 //@action src/lib/preprocessor/preprocessor.rs u_byte_num = r#"0(b|B)[0-1]+"# as nm_pp_u_byte_num_bin
@@ -105,8 +105,8 @@ pub assume_specification [usize::from_str_radix] (s: &str, radix: u32) -> (r: Re
 //@dropunused
     requires n.is_ascii(), n@.len() >= 3, text_is_number(n@.subrange(2, n@.len() as int), 2),   // the token's regular expression
     ensures
-        r is Ok <==> 0 <= text_value(n@.subrange(2, n@.len() as int), 2) <= 0xFF,      //# C14 number.accepted_iff_in_the_range_of_its_operand_type
-        r is Ok ==> r->Ok_0 as int == text_value(n@.subrange(2, n@.len() as int), 2),       //# C14 number.accepted_with_its_value
+        r is Ok <==> 0 <= text_value(n@.subrange(2, n@.len() as int), 2) <= 0xFF,      //# C14,C11 number.accepted_iff_in_the_range_of_its_operand_type
+        r is Ok ==> r->Ok_0 as int == text_value(n@.subrange(2, n@.len() as int), 2),       //# C14,C11 number.accepted_with_its_value
 //@end
 
 //@action src/lib/preprocessor/preprocessor.rs s_word_num = r#"-[0-9]+"# as nm_pp_s_word_num_neg
@@ -115,8 +115,8 @@ pub assume_specification [usize::from_str_radix] (s: &str, radix: u32) -> (r: Re
 //@dropunused
     requires n.is_ascii(), n@.len() >= 1, text_is_number(n@, 10),   // the token's regular expression
     ensures
-        r is Ok <==> -0x8000 <= text_value(n@, 10) <= 0x7FFF,      //# C14 number.accepted_iff_in_the_range_of_its_operand_type
-        r is Ok ==> r->Ok_0 as int == text_value(n@, 10),       //# C14 number.accepted_with_its_value
+        r is Ok <==> -0x8000 <= text_value(n@, 10) <= 0x7FFF,      //# C14,C11 number.accepted_iff_in_the_range_of_its_operand_type
+        r is Ok ==> r->Ok_0 as int == text_value(n@, 10),       //# C14,C11 number.accepted_with_its_value
 //@end
 
 //@action src/lib/preprocessor/preprocessor.rs s_byte_num = r#"-[0-9]+"# as nm_pp_s_byte_num_neg
@@ -125,8 +125,8 @@ pub assume_specification [usize::from_str_radix] (s: &str, radix: u32) -> (r: Re
 //@dropunused
     requires n.is_ascii(), n@.len() >= 1, text_is_number(n@, 10),   // the token's regular expression
     ensures
-        r is Ok <==> -0x80 <= text_value(n@, 10) <= 0x7F,      //# C14 number.accepted_iff_in_the_range_of_its_operand_type
-        r is Ok ==> r->Ok_0 as int == text_value(n@, 10),       //# C14 number.accepted_with_its_value
+        r is Ok <==> -0x80 <= text_value(n@, 10) <= 0x7F,      //# C14,C11 number.accepted_iff_in_the_range_of_its_operand_type
+        r is Ok ==> r->Ok_0 as int == text_value(n@, 10),       //# C14,C11 number.accepted_with_its_value
 //@end
 
 //@action src/lib/preprocessor/preprocessor.rs raw_addr = r#"[0-9]+"# as nm_pp_raw_addr_dec
@@ -135,8 +135,8 @@ pub assume_specification [usize::from_str_radix] (s: &str, radix: u32) -> (r: Re
 //@dropunused
     requires n.is_ascii(), n@.len() >= 1, text_is_number(n@, 10),   // the token's regular expression
     ensures
-        r is Ok <==> 0 <= text_value(n@, 10) <= 0xFFFF_FFFF,      //# C14 number.accepted_iff_in_the_range_of_its_operand_type
-        r is Ok ==> r->Ok_0 as int == text_value(n@, 10) % 0x100000,       //# C14 number.accepted_with_its_value
+        r is Ok <==> 0 <= text_value(n@, 10) <= 0xFFFF_FFFF,      //# C14,C11 number.accepted_iff_in_the_range_of_its_operand_type
+        r is Ok ==> r->Ok_0 as int == text_value(n@, 10) % 0x100000,       //# C14,C11 number.accepted_with_its_value
 //@end
 
 //@action src/lib/preprocessor/preprocessor.rs raw_addr = r#"0(x|X)[0-9A-Fa-f]+"# as nm_pp_raw_addr_hex
@@ -145,8 +145,8 @@ pub assume_specification [usize::from_str_radix] (s: &str, radix: u32) -> (r: Re
 //@dropunused
     requires n.is_ascii(), n@.len() >= 3, text_is_number(n@.subrange(2, n@.len() as int), 16),   // the token's regular expression
     ensures
-        r is Ok <==> 0 <= text_value(n@.subrange(2, n@.len() as int), 16) <= 0xFFFF_FFFF,      //# C14 number.accepted_iff_in_the_range_of_its_operand_type
-        r is Ok ==> r->Ok_0 as int == text_value(n@.subrange(2, n@.len() as int), 16) % 0x100000,       //# C14 number.accepted_with_its_value
+        r is Ok <==> 0 <= text_value(n@.subrange(2, n@.len() as int), 16) <= 0xFFFF_FFFF,      //# C14,C11 number.accepted_iff_in_the_range_of_its_operand_type
+        r is Ok ==> r->Ok_0 as int == text_value(n@.subrange(2, n@.len() as int), 16) % 0x100000,       //# C14,C11 number.accepted_with_its_value
 //@end
 
 //@action src/lib/preprocessor/preprocessor.rs raw_addr = r#"0(b|B)[0-1]+"# as nm_pp_raw_addr_bin
@@ -155,8 +155,8 @@ pub assume_specification [usize::from_str_radix] (s: &str, radix: u32) -> (r: Re
 //@dropunused
     requires n.is_ascii(), n@.len() >= 3, text_is_number(n@.subrange(2, n@.len() as int), 2),   // the token's regular expression
     ensures
-        r is Ok <==> 0 <= text_value(n@.subrange(2, n@.len() as int), 2) <= 0xFFFF_FFFF,      //# C14 number.accepted_iff_in_the_range_of_its_operand_type
-        r is Ok ==> r->Ok_0 as int == text_value(n@.subrange(2, n@.len() as int), 2) % 0x100000,       //# C14 number.accepted_with_its_value
+        r is Ok <==> 0 <= text_value(n@.subrange(2, n@.len() as int), 2) <= 0xFFFF_FFFF,      //# C14,C11 number.accepted_iff_in_the_range_of_its_operand_type
+        r is Ok ==> r->Ok_0 as int == text_value(n@.subrange(2, n@.len() as int), 2) % 0x100000,       //# C14,C11 number.accepted_with_its_value
 //@end
 
 //@action src/lib/interpreter/interpreter.rs u_word_num = r#"[0-9]+"# as nm_it_u_word_num_dec
